@@ -16,7 +16,7 @@ ASSUMPTIONS = ['a CPU-budget overrun is not a verdict unless confirmed in isolat
                'meek/warren with rational arithmetic (exponential by design: not explored)',
                'electable = not withdrawn, and under mpls not an undeclared write-in (the property\'s definition)']
 MIN_COUNTERS = {'counts_judged': 200, 'final_state_checked': 200, 'withdrawn_snapshots_checked': 50}
-WEIGHTS = dict(G1=2, G2=2, G3=1, G4=1, G5=1, G6=4, G7=4, G9=1, G10=4)
+WEIGHTS = dict(G1=2, G2=2, G3=1, G4=1, G5=1, G6=4, G7=4, G9=1, G10=4, G11=2)
 ANCHOR_FILES = ['droop/election.py', 'droop/rules/wigm.py', 'droop/rules/wigm_prf.py', 'droop/rules/cfer.py',
                 'droop/rules/scotland.py', 'droop/rules/mpls.py', 'droop/rules/meek.py', 'droop/rules/meek_prf.py',
                 'droop/rules/qpq.py']
@@ -146,7 +146,12 @@ def exit_path(run):
 def shard(ctx):
     n_min = 60 if ctx.quick else 400
     for i, rng in ctx.cases(n_min, 10 ** 9):
-        case = stream.make_case(ctx, rng, WEIGHTS, meek_rational=True)
+        if i % 8 == 3:
+            # iterations that stall on rounding noise right at omega: electorates of a few thousand ballots under the Meek family
+            case = stream.make_case(ctx, rng, dict(G11=1), rules=['meek-prf', 'meek-prf', 'meek-prf', 'meek', 'warren'], allow_eq=False)
+            ctx.count('meek_family_mid_electorates')
+        else:
+            case = stream.make_case(ctx, rng, WEIGHTS, meek_rational=True)
         run, opts = case.run, case.opts
         ctx.evaluated()
         if run.error is not None and run.phase == 'profile':
